@@ -2,7 +2,7 @@
 # tools/prove.sh: check the TLAPS proofs in spec/ with tlapm (in a scratch directory: tlapm writes a cache next to the module)
 d=$(mktemp -d /tmp/verif-prove-XXXXXX)
 rc=0
-cp /verif/spec/*.tla $d/; rm -f $d/TLAPS.tla
+cp "$(dirname "$0")"/../spec/*.tla $d/; rm -f $d/TLAPS.tla
 for m in CleanWriteN DecodeHistoryProof DataStreamProof SelectionProof DeleteLoopProof "$@"; do
   out=$(cd $d && timeout 900 tlapm $m.tla 2>&1 | grep -E "obligations|ERROR" | head -5)
   echo "$m: $out"
